@@ -456,6 +456,14 @@ def dispatch(engine, st, callee, args, dest_ty):
             fn = cands[0]
     if fn is not None:
         return engine.exec_fn(st, fn, args)
+    # an inherent method of a type imported from a sibling crate (`use vrp_core::models::LockDetail; LockDetail::new(..)`): the path carries no crate name
+    if len(segs) >= 2:
+        for other in getattr(engine, 'siblings', {}).values():
+            if other is engine:
+                continue
+            fns = [f for f in other.prog.find_method(segs[-2], segs[-1], trait=None) if other.prog.impl_header(f)[0] is None]
+            if len(fns) == 1:
+                return other.exec_fn(st, fns[0], args)
     raise Inconclusive(f'unbound call {callee}')
 
 
